@@ -22,6 +22,7 @@ func init() {
 }
 
 func runC19(w *World, r *Report) {
+	theWorld = w
 	r.Rule("put", "the encoder appends exactly width/8 bytes, big-endian", 6)
 	r.Rule("read", "the reader returns the bytes at the offset big-endian and advances by width/8", 6)
 	r.Rule("raw", "raw write/read/skip move exactly the bytes and offsets given", 3)
@@ -419,34 +420,10 @@ func runC19(w *World, r *Report) {
 			named = fi.Pkg.TypesInfo.Defs[fi.Decl.Type.Results.List[0].Names[0]]
 		}
 		ast.Inspect(fi.Decl.Body, func(n ast.Node) bool {
-			ds, ok := n.(*ast.DeferStmt)
-			if !ok {
-				return true
-			}
-			fl, ok := ds.Call.Fun.(*ast.FuncLit)
-			if !ok {
-				return true
-			}
-			hasRecover, assigns := false, false
-			ast.Inspect(fl.Body, func(m ast.Node) bool {
-				switch y := m.(type) {
-				case *ast.CallExpr:
-					if id, ok := y.Fun.(*ast.Ident); ok && id.Name == "recover" {
-						if _, isB := fi.Pkg.TypesInfo.Uses[id].(*types.Builtin); isB {
-							hasRecover = true
-						}
-					}
-				case *ast.AssignStmt:
-					for _, l := range y.Lhs {
-						if id, ok := l.(*ast.Ident); ok && named != nil && fi.Pkg.TypesInfo.Uses[id] == named {
-							assigns = true
-						}
-					}
+			if ds, ok := n.(*ast.DeferStmt); ok {
+				if ok2, _ := recoverDefer(w, fi, ds, named); ok2 {
+					okRec = true
 				}
-				return true
-			})
-			if hasRecover && assigns {
-				okRec = true
 			}
 			return true
 		})
@@ -462,12 +439,20 @@ func runC19(w *World, r *Report) {
 // before the access was performed.
 func coveredByRecover(fi *FuncInfo, p *bvPath, s *bvSite) bool {
 	for i, d := range p.Defers {
-		fl, ok := d.Call.Fun.(*ast.FuncLit)
-		if !ok {
+		has := false
+		var body ast.Node
+		if fl, ok := d.Call.Fun.(*ast.FuncLit); ok {
+			body = fl.Body
+		} else if hf := theWorld.FuncOf(theWorld.calleeOf(fi.Pkg.TypesInfo, d.Call)); hf != nil && hf.Decl.Body != nil {
+			body = hf.Decl.Body
+		}
+		if body == nil {
 			continue
 		}
-		has := false
-		ast.Inspect(fl.Body, func(m ast.Node) bool {
+		ast.Inspect(body, func(m ast.Node) bool {
+			if _, isLit := m.(*ast.FuncLit); isLit && m != body {
+				return false
+			}
 			if c, ok := m.(*ast.CallExpr); ok {
 				if id, ok := c.Fun.(*ast.Ident); ok && id.Name == "recover" {
 					has = true
@@ -488,3 +473,6 @@ func coveredByRecover(fi *FuncInfo, p *bvPath, s *bvSite) bool {
 func normSite(s string) string {
 	return strings.Join(strings.Fields(s), "")
 }
+
+// theWorld: the world of the running check, for helpers that are handed only syntax.
+var theWorld *World
